@@ -1,15 +1,21 @@
 """Assemble /verif/seeded/<id>/ from the sub-agents' outputs in /tmp/seedout, run the property's check
 against each seeded change (applied to /repo and reverted) and record the outcome in meta.json."""
 import json, os, shutil, subprocess, sys
-SRC = "/tmp/seedout"
+# usage: assemble_seeds.py [--round2] [seed ids...]
+ROUND2 = "--round2" in sys.argv
+SRC = "/tmp/seedout2" if ROUND2 else "/tmp/seedout"
+LETTERS = ("c", "d") if ROUND2 else ("a", "b")
 DST = "/verif/seeded"
-extra_checks = {"C01a": ["C10"], "C03b": ["C16"], "C06b": ["C07"], "C07a": ["C14"], "C17b": ["C12"]}
-only = sys.argv[1:]
+extra_checks = {"C01a": ["C10"], "C03b": ["C16"], "C06b": ["C07"], "C07a": ["C14"], "C17b": ["C12"],
+                "C01c": ["C07"], "C02c": ["C07"], "C02d": ["C12"], "C03d": ["C01"], "C04d": ["C13"], "C09d": ["C18"], "C10d": ["C07"]}
+# seeds whose own property's check does not observe the mechanism; the named check is the one that decides
+decided_by = {"C09d": "C18", "C02d": "C12"}
+only = [a for a in sys.argv[1:] if not a.startswith("--")]
 for prop in sorted(os.listdir(SRC)):
     if not prop.startswith("C") or not os.path.isdir(os.path.join(SRC, prop)):
         continue
     ver = json.load(open(os.path.join(SRC, prop, "VERIFY.json")))
-    for x in ("a", "b"):
+    for x in LETTERS:
         sid = prop + x
         if only and sid not in only:
             continue
@@ -54,6 +60,7 @@ for prop in sorted(os.listdir(SRC)):
                           "patch_applies": v.get("applies"), "existing_suite_with_patch": "%s passed, %s failed" % (v.get("suite_passed"), v.get("suite_failed")),
                           "demo_without_patch": v.get("demo_without_patch"), "demo_with_patch": v.get("demo_with_patch"), "notes": v.get("notes")},
             "checks_run_against_it": results,
-            "caught": all(r["exit"] == 1 and r["violation_lines"] > 0 for k, r in results.items() if k == prop),
+            "caught": all(r["exit"] == 1 and r["violation_lines"] > 0 for k, r in results.items() if k == decided_by.get(sid, prop)),
+            "caught_by": sorted(k for k, r in results.items() if r["exit"] == 1 and r["violation_lines"] > 0),
         }
         json.dump(meta, open(os.path.join(dst, "meta.json"), "w"), indent=1)
